@@ -106,6 +106,8 @@ def framing_sites(ctx):
                 par = ctx.m.parent.get(n)
                 if isinstance(par, ast.BinOp) and isinstance(par.op, (ast.Add, ast.Mod)) and n.value.rstrip(" ").endswith(("Content-Length:", "%d", "%s", "{}")):
                     hit = True
+                elif isinstance(par, ast.BinOp) and isinstance(par.op, ast.Mod) and par.left is n and __import__("re").search(r"Content-Length:\s*%[ds]", n.value):
+                    hit = True  # the whole header block as one %-template
                 elif isinstance(par, ast.Attribute) and par.attr in ("format", "join"):
                     hit = True
             if hit and f not in out:
